@@ -76,7 +76,7 @@ def run_f3(rep, pid, tier, seed=0):
     for tot in res:
         fold(rep, pid, "F3", None, tot)
     rep.cov["parts"]["F3"]["container_sets"] = len(cs)
-    dc = f3.drift_cases(tier)
+    dc = f3.drift_cases(tier) + f3.crowd_cases(tier)
     res = pmap(f3.drift_work, chunked(dc, NPROC * 4), chunks=1)
     for tot in res:
         fold(rep, pid, "F3-drift", None, tot)
@@ -148,7 +148,7 @@ def replay(rec):
         w = f5.run_checked(sc, tr)
     elif fam == "F3d":
         c = rec["scenario"]["drift"]
-        sc = f3.drift_scenario((c[0], tuple(c[1]), tuple(c[2])), rec["scenario"]["overcommit"])
+        sc = f3.crowd_scenario(tuple(c)) if c[0] == "crowd" else f3.drift_scenario((c[0], tuple(c[1]), tuple(c[2])), rec["scenario"]["overcommit"])
         tr = []
         w = f3.run(sc, tr)
     elif fam == "F3":
